@@ -366,7 +366,7 @@ func c04OkDiscipline(p *Prog, r *Report) {
 func addDepCalls(p *Prog, f *ssa.Function) []*ssa.Call {
 	var out []*ssa.Call
 	p.instrs(f, func(b *ssa.BasicBlock, i int, in ssa.Instruction) {
-		if c, ok := in.(*ssa.Call); ok && strings.HasSuffix(calleeName(c), "depTracker).addDep") {
+		if c, ok := in.(*ssa.Call); ok && p.isAddDep(c) {
 			out = append(out, c)
 		}
 	})
@@ -562,7 +562,7 @@ func c04Registration(p *Prog, r *Report) {
 		r.Func(FuncName(fd))
 		var reg *ssa.Call
 		p.instrs(fd, func(b *ssa.BasicBlock, i int, in ssa.Instruction) {
-			if c, ok := in.(*ssa.Call); ok && strings.HasSuffix(calleeName(c), "depTracker).addName") {
+			if c, ok := in.(*ssa.Call); ok && p.isAddName(c) {
 				reg = c
 			}
 		})
@@ -618,7 +618,7 @@ func c04Registration(p *Prog, r *Report) {
 	for _, h := range p.FuncsIn(Mod) {
 		var regs []*ssa.Call
 		p.instrs(h, func(b *ssa.BasicBlock, i int, in ssa.Instruction) {
-			if c, ok := in.(*ssa.Call); ok && strings.HasSuffix(calleeName(c), "depTracker).addName") {
+			if c, ok := in.(*ssa.Call); ok && p.isAddName(c) {
 				regs = append(regs, c)
 			}
 		})
@@ -1052,7 +1052,7 @@ func helperRecordsDep(g *ssa.Function) bool {
 	var deps []*ssa.Call
 	for _, b := range g.Blocks {
 		for _, in := range b.Instrs {
-			if c, ok := in.(*ssa.Call); ok && strings.HasSuffix(calleeName(c), "depTracker).addDep") {
+			if c, ok := in.(*ssa.Call); ok && curProg != nil && curProg.isAddDep(c) {
 				deps = append(deps, c)
 			}
 		}
